@@ -20,7 +20,8 @@ prop, n, crate, filt = sys.argv[1:5]
 skip_suite = "--skip-suite" in sys.argv
 WT = "/tmp/confirm_wt"
 TGT = "/tmp/confirm_tgt"
-OUT = "/tmp/seed_%s_out" % prop
+OUT = os.environ.get("SEED_OUT", "/tmp/seed_%s_out" % prop)
+ID_OFFSET = int(os.environ.get("SEED_ID_OFFSET", "0"))
 ENV = dict(os.environ, CARGO_NET_OFFLINE="true", CARGO_TARGET_DIR=TGT)
 SEL = os.environ.get("DEMO_SEL", "--lib")
 
@@ -82,7 +83,7 @@ if not skip_suite:
     meta["suite_counts"] = {"ok": sum(1 for v in res.values() if v == "ok"), "failed": sum(1 for v in res.values() if v == "FAILED")}
     assert not diff, "existing test results change with the patch: %s" % diff
 reset()
-dst = "/verif/seeded/%s-%s" % (prop, n)
+dst = "/verif/seeded/%s-%d" % (prop, int(n) + ID_OFFSET)
 os.makedirs(dst, exist_ok=True)
 sh("cp %s %s/patch.diff && cp %s %s/demo.diff" % (change, dst, demo, dst))
 meta["confirmed"] = True
